@@ -11,6 +11,7 @@ import (
 	"io"
 	"math/big"
 	"sort"
+	"strconv"
 	"strings"
 
 	"github.com/jf-tech/go-corelib/strs"
@@ -76,12 +77,104 @@ type recObs struct {
 	Size    int
 	On, Off string // canonical JSON of ParseNode with the transform cache on / off ("!err" on error)
 	Read    string // canonical JSON of what Transform.Read returned ("!err" = ErrTransformFailed)
+	Direct  []memberExp
 	ReadObs string // Coq term of the observed outcome
 }
 
 type capture struct {
 	decl *transform.Decl
 	recs []*recObs
+	fo   *GDecl // the generated FINAL_OUTPUT (nil: no direct expectations)
+}
+
+// expectation for one member of FINAL_OUTPUT computed directly from the documented rules
+type memberExp struct {
+	Key   string
+	State string // "fail" | "absent" | "present"
+	Val   string // canonical JSON of {key: value} when present
+}
+
+// expectNorm is D4 written directly in Go: trim unless no_trim, cast, omit empty unless keep.
+func expectNorm(d *GDecl, s string) (string, interface{}) {
+	if !d.NoTrim {
+		s = strings.TrimSpace(s)
+	}
+	var v interface{} = s
+	if d.Type != nil {
+		switch *d.Type {
+		case "int":
+			i, err := strconv.ParseInt(s, 10, 64)
+			if err != nil {
+				return "fail", nil
+			}
+			v = i
+		case "float":
+			f, err := strconv.ParseFloat(s, 64)
+			if err != nil {
+				return "fail", nil
+			}
+			v = f
+		case "boolean":
+			b, err := strconv.ParseBool(s)
+			if err != nil {
+				return "fail", nil
+			}
+			v = b
+		}
+	}
+	if str, ok := v.(string); ok && str == "" && !d.Keep {
+		return "absent", nil
+	}
+	return "present", v
+}
+
+// directExpectations evaluates the members of FINAL_OUTPUT that are plain constants or plain
+// fields with a static xpath straight from the documented rules, with the xpath engine as a
+// black box: no node -> null result, one -> its text, several -> the record fails.
+func directExpectations(fo *GDecl, n *idr.Node) []memberExp {
+	var out []memberExp
+	if fo == nil || !fo.HasObject {
+		return nil
+	}
+	for _, kv := range fo.Object {
+		d := kv.D
+		if d.External != nil || d.Func != nil || d.Template != nil || d.HasObject || d.HasArray || d.XDyn != nil {
+			continue
+		}
+		var state string
+		var val interface{}
+		if d.Const != nil {
+			state, val = expectNorm(d, *d.Const)
+		} else {
+			nodes := []*idr.Node{n}
+			if d.XPath != nil && strings.TrimSpace(*d.XPath) != "" {
+				var err error
+				nodes, err = idr.MatchAll(n, *d.XPath)
+				if err != nil {
+					state = "fail"
+				}
+			}
+			switch {
+			case state == "fail":
+			case len(nodes) == 0:
+				state, val = "absent", nil
+				if d.Keep {
+					state = "present"
+				}
+			case len(nodes) > 1:
+				state = "fail"
+			default:
+				state, val = expectNorm(d, nodes[0].InnerText())
+			}
+		}
+		me := memberExp{Key: kv.Key, State: state}
+		if state == "present" {
+			b, _ := json.Marshal(map[string]interface{}{kv.Key: val})
+			me.Val = canonBytes(b)
+		}
+		out = append(out, me)
+	}
+	return out
 }
 
 type capFormat struct {
@@ -276,6 +369,7 @@ func (r *capReader) Read() (*idr.Node, error) {
 		pc.VerifSetDisableTransformCache(true)
 		ro.Off = canonJSON(pc.ParseNode(n, r.cap.decl))
 	}()
+	ro.Direct = directExpectations(r.cap.fo, n)
 	r.cap.recs = append(r.cap.recs, ro)
 	return n, err
 }
@@ -296,9 +390,9 @@ type runOut struct {
 	Panic     string
 }
 
-func runSchema(schema, input string) (out *runOut) {
+func runSchema(schema, input string, fo *GDecl) (out *runOut) {
 	out = &runOut{}
-	cp := &capture{}
+	cp := &capture{fo: fo}
 	defer func() {
 		if p := recover(); p != nil {
 			out.Panic = fmt.Sprint(p)
